@@ -16,10 +16,10 @@ def NEff.isInvoke : NEff → Bool
   | _ => false
 
 /-- the completions an effect list posts (in order) -/
-def postsOf : List NEff → List Compl
+def h4_postsOf : List NEff → List Compl
   | [] => []
-  | .post c :: rest => c :: postsOf rest
-  | _ :: rest => postsOf rest
+  | .post c :: rest => c :: h4_postsOf rest
+  | _ :: rest => h4_postsOf rest
 
 /-- the completions an effect list invokes inline (in order) -/
 def invokesOf : List NEff → List Compl
@@ -100,14 +100,14 @@ theorem silent_noInvoke {l : List NEff} (h : silent l) : noInvoke l := by
     refine ⟨?_, ih h.2⟩
     cases e <;> simp_all [NEff.isSilent, NEff.isInvoke]
 
-@[simp] theorem postsOf_nil : postsOf [] = [] := rfl
+@[simp] theorem postsOf_nil : h4_postsOf [] = [] := rfl
 @[simp] theorem invokesOf_nil : invokesOf [] = [] := rfl
 @[simp] theorem effIds_nil : effIds [] = [] := rfl
 
-theorem postsOf_append (a b : List NEff) : postsOf (a ++ b) = postsOf a ++ postsOf b := by
+theorem postsOf_append (a b : List NEff) : h4_postsOf (a ++ b) = h4_postsOf a ++ h4_postsOf b := by
   induction a with
   | nil => rfl
-  | cons e rest ih => cases e <;> simp [postsOf, ih]
+  | cons e rest ih => cases e <;> simp [h4_postsOf, ih]
 
 theorem invokesOf_append (a b : List NEff) : invokesOf (a ++ b) = invokesOf a ++ invokesOf b := by
   induction a with
@@ -119,12 +119,12 @@ theorem effIds_append (a b : List NEff) : effIds (a ++ b) = effIds a ++ effIds b
   | nil => rfl
   | cons e rest ih => cases e <;> simp [effIds, ih]
 
-theorem postsOf_silent {l : List NEff} (h : silent l) : postsOf l = [] := by
+theorem postsOf_silent {l : List NEff} (h : silent l) : h4_postsOf l = [] := by
   induction l with
   | nil => rfl
   | cons e rest ih =>
     simp only [silent_cons] at h
-    cases e <;> simp_all [NEff.isSilent, postsOf]
+    cases e <;> simp_all [NEff.isSilent, h4_postsOf]
 
 theorem effIds_silent {l : List NEff} (h : silent l) : effIds l = [] := by
   induction l with
@@ -141,12 +141,12 @@ theorem invokesOf_noInvoke {l : List NEff} (h : noInvoke l) : invokesOf l = [] :
     cases e <;> simp_all [NEff.isInvoke, invokesOf]
 
 /-- without inline invocations every completion id is the id of a posted completion -/
-theorem effIds_noInvoke {l : List NEff} (h : noInvoke l) : effIds l = (postsOf l).map (·.h) := by
+theorem effIds_noInvoke {l : List NEff} (h : noInvoke l) : effIds l = (h4_postsOf l).map (·.h) := by
   induction l with
   | nil => rfl
   | cons e rest ih =>
     simp only [noInvoke_cons] at h
-    cases e <;> simp_all [NEff.isInvoke, effIds, postsOf]
+    cases e <;> simp_all [NEff.isInvoke, effIds, h4_postsOf]
 
 /-! ### `setAssoc` -/
 
